@@ -21,10 +21,10 @@ type c01Case struct {
 	Files   map[string]string `json:"files"`
 	Special map[string]string `json:"special,omitempty"` // path -> fifo | dir | symlink:<target>
 	NoRepo  bool              `json:"no_repo,omitempty"` // the files are outside any repository (no .git)
-	Mode  string            `json:"mode"` // lib-file | lib-files | lib-content | cli
-	Tool  bool              `json:"tool"` // external tools enabled (fake tool)
-	Desc  string            `json:"desc"`
-	Skip  bool              `json:"-"`
+	Mode    string            `json:"mode"`              // lib-file | lib-files | lib-content | cli
+	Tool    bool              `json:"tool"`              // external tools enabled (fake tool)
+	Desc    string            `json:"desc"`
+	Skip    bool              `json:"-"`
 }
 
 type c01Family struct {
@@ -162,7 +162,9 @@ func c01Variants() []c01Variant {
 		add("map:exprkey", func() *yaml.Node { return c01Map(c01Scalar("", "${{ x }}"), c01Scalar("", "${{ y. }}")) })
 		add("scalar:null-tilde", func() *yaml.Node { return c01Scalar("!!null", "~") })
 		add("scalar:null-empty", func() *yaml.Node { return &yaml.Node{Kind: yaml.ScalarNode, Tag: "!!null", Value: ""} })
-		add("scalar:emptystr", func() *yaml.Node { return &yaml.Node{Kind: yaml.ScalarNode, Tag: "!!str", Value: "", Style: yaml.DoubleQuotedStyle} })
+		add("scalar:emptystr", func() *yaml.Node {
+			return &yaml.Node{Kind: yaml.ScalarNode, Tag: "!!str", Value: "", Style: yaml.DoubleQuotedStyle}
+		})
 		add("scalar:int", func() *yaml.Node { return c01Scalar("", "1") })
 		add("scalar:negint", func() *yaml.Node { return c01Scalar("", "-1") })
 		add("scalar:bigint", func() *yaml.Node { return c01Scalar("", "123456789012345678901234567890") })
